@@ -216,6 +216,19 @@ def run(P, R):
         total = always_exits(body)
         R.check(r2, total, '%s never falls through' % v, 'validator-total|%s' % v, u.loc(),
                 'RPCInterface.%s has a path that returns None implicitly instead of raising' % v)
+    gs = P.unit('RPCInterface._get_strategy')
+    fmg = factmap(gs)
+    arg, kls = gs.node.args.args[1].arg, gs.node.args.args[2].arg
+    look = {}
+    for v, facts, n in returns(gs):
+        if v is not None:
+            look[ast.unparse(v)] = {tuple(f) for f in facts}
+    ok = ('type(%s) is str' % arg, True) in look.get('%s[%s]' % (kls, arg), set()) and \
+        ('type(%s) is int' % arg, True) in look.get('%s(%s)' % (kls, arg), set()) and len(look) == 2
+    R.check(r2, ok, 'a strategy is accepted only as an exact str (by name) or an exact int (by value)',
+            'validator-type|_get_strategy', gs.loc(), 'RPCInterface._get_strategy accepts %s: with isinstance() a boolean '
+            '(a subclass of int) is mapped to a strategy instead of raising INCORRECT_PARAMETERS' %
+            {k: sorted(v) for k, v in look.items()})
     # NOT_MANAGED and the program-name test
     for name in ('start_application', 'test_start_application', 'stop_application', 'restart_application'):
         u = P.unit('RPCInterface.' + name)
